@@ -61,6 +61,11 @@ def rn1(prog, rr):
         lp = _enclosing_for(f.node, c)
         if lp is None or norm(lp.iter) != "self.field_l":
             rr.finding(f, c, "FieldCompositeModel.set_used_rand", "RN1: propagation does not iterate all of self.field_l")
+        elif lp not in f.node.body or any(isinstance(n, ast.Return) and n.lineno < lp.lineno for n in walk_local(f.node)):
+            # the flags of the sub-tree are recomputed on EVERY call: a skipped walk leaves flags of an earlier (possibly failed) call behind
+            rr.finding(f, lp, "FieldCompositeModel.set_used_rand", "RN1: the walk over self.field_l is conditional or can be skipped by an earlier "
+                       "return: the used-as-random flags below this composite then keep the values of a previous call (e.g. one that "
+                       "raised before the flags were cleared)", text="propagation skipped")
     fa = prog.method("FieldArrayModel", "set_used_rand")
     calls = [norm(n) for n in walk_local(fa.node) if isinstance(n, ast.Call) and call_name(n) == "set_used_rand"]
     rr.inst("FieldArrayModel.set_used_rand: %s" % calls)
@@ -134,7 +139,7 @@ def fault_seeds(prog):
 PHASES = ["used_rand", "pre", "bounds1", "rewrite", "bounds2", "randinfo", "solve", "rollback", "post"]
 
 
-@rule("RN2", ["C03", "C16", "C17", "C02", "C04"], "phase order of do_randomize as dominance facts; rollback in finally on every exit; overrides never outlive a call",
+@rule("RN2", ["C03", "C16", "C17", "C02", "C04", "C01", "C08", "C09"], "phase order of do_randomize as dominance facts; rollback in finally on every exit; overrides never outlive a call",
       engine="SAI+CG", floor=5)
 def rn2(prog, rr):
     dr = prog.method("Randomizer", "do_randomize")
@@ -347,6 +352,36 @@ def handle_attrs(prog):
                         d = dotted(t)
                         if d and d.startswith("self.") and d.count(".") == 1:
                             out.setdefault((f.cls, d[5:]), []).append(f)
+    # build-time memos: attributes that build() (with the self-helpers it calls) both writes and reads - whatever they hold
+    # (a solver node, an expanded expression tree, a length) survives into the next call unless it is reset
+    for c in prog.classes:
+        if ".model." not in c.module.name:
+            continue
+        m = c.methods.get("build")
+        if m is None or "btor" not in m.params:
+            continue
+        fs = [m]
+        i = 0
+        while i < len(fs):
+            g = fs[i]
+            i += 1
+            for n in walk_local(g.node):
+                if isinstance(n, ast.Call) and isinstance(n.func, ast.Attribute) and isinstance(n.func.value, ast.Name) \
+                        and n.func.value.id == "self":
+                    h = prog.lookup(c, n.func.attr)
+                    if h is not None and h not in fs and h.name != "build":
+                        fs.append(h)
+        w, r = {}, set()
+        for g in fs:
+            for n in walk_local(g.node):
+                if isinstance(n, ast.Attribute) and isinstance(n.value, ast.Name) and n.value.id == "self":
+                    if isinstance(n.ctx, ast.Store):
+                        w.setdefault(n.attr, g)
+                    else:
+                        r.add(n.attr)
+        for a in sorted(set(w) & r):
+            if (c, a) not in out:
+                out[(c, a)] = [w[a]]
     # a setter that every subclass overrides, in a class that is never constructed itself, never runs
     from rules.r20_lowering import _constructed
     dead = []
@@ -451,7 +486,8 @@ def sh4(prog, rr):
             rr.inst("handle %s.%s %s-path resets: %s" % (cls.name, attr, region, sorted(_q(f) for f in ok)))
             if not ok:
                 rr.finding(setters[0], setters[0].node, "%s.%s" % (cls.name, attr),
-                           "SH4: solver handle %s.%s (set in %s) is not reset %s: the next call reuses a node of a dead Boolector instance"
+                           "SH4: %s.%s (set in %s and read back by build()) is not reset %s: the next call reuses what the previous call "
+                           "cached - a node of a dead Boolector instance, or an expansion of operands that have changed since"
                            % (cls.name, attr, _q(setters[0]), what), text="handle %s.%s not reset on %s path" % (cls.name, attr, region))
     # failure path disposes every field of every rand set
     rsc = prog.cls("RandSet")
